@@ -30,6 +30,14 @@ def run(run):
     for cfgname, f in run.for_configs():
         kill_fn(run, f)
         control_channel(run, f)
+        # "kill() never fails" also through the type-erased controls: their kill is the plain forwarder (C16 rule O16.1)
+        from rules import c16
+        n_erased = 0
+        for d, fn in sorted(f.fns.items()):
+            if fn.get("has_body") and fn.get("impl_trait") in c16.SIX and fn["name"] == "kill" and fn.get("impl_self") is not None:
+                c16.trait_method(run, f, d, fn, fn["impl_trait"], f.ty(fn["impl_self"]))
+                n_erased += 1
+        run.require(n_erased >= 1, "O6.1", "erased-kill-present", "no type-erased kill found", "%d type-erased kill method(s) are forwarders" % n_erased)
         lc = lifecycle.get(f)
         if lc.errors or lc.body is None:
             for e in lc.errors:
